@@ -560,6 +560,8 @@ def build_gfa2(r, opts=None):
             else:
                 pool = named["S"] + named["E"] + named["G"] + named["O"] + named["U"]
                 items = [choice(r, pool) for _ in range(r.randint(1, 4))]
+                if all(i in named["G"] for i in items):
+                    items.append(choice(r, named["S"]))  # never a set of gaps only
                 pid = "*"
                 if chance(r, 0.7):
                     n = fresh_name()
